@@ -351,6 +351,31 @@ def check_config(ctx, pm, cfg, workdir, texts, counter):
             ctx.violation("independent-of-access-order", "what an accessor returns does not depend on which other accessors were read before",
                           dict(case, accessor=acc, access_order=order), observed={"after %s" % order: _origin(t), "fresh object": _origin(t2)},
                           expected="the same metadata")
+    # (4) the files are the source of truth: rewrite one file in place and open the SAME path again
+    if layout is not None:
+        for acc, t in sorted(loaded_texts.items())[:1]:
+            here = placed[layout][acc]
+            name = sorted(here)[0] if len(here) == 1 else None
+            if name is None:
+                continue
+            new_text = make_text(pm, acc, "rewritten-%s" % acc)
+            fpath = os.path.join(got_root, "metadata", name)
+            try:
+                with open(fpath, "w") as f:
+                    f.write(new_text)
+                direct = pm[acc]()
+                direct.loads(new_text)
+                want2 = direct.dumps()
+                again = pm["Compose"](path)
+                got2 = getattr(again, acc).dumps()
+            except Exception as e:
+                got2, want2 = "raised %s: %s" % (type(e).__name__, str(e)[:100]), "the rewritten file"
+            bad = got2 != want2
+            ctx.monitor("reopen-sees-rewritten-file", fired=bad)
+            if bad:
+                ctx.violation("reopen-sees-rewritten-file", "opening a compose yields the metadata stored for it NOW: a new Compose on the same path "
+                              "after a file was rewritten returns the new content", dict(case, accessor=acc), observed=_origin(got2),
+                              expected=_origin(want2))
     ctx.count("kind-valid") if cfg["kind"] == "valid" else None
     shutil.rmtree(base, ignore_errors=True)
 
